@@ -1315,11 +1315,18 @@ impl VfsEntry {
     #[verifier::external_body]
     pub fn alt(&self) -> (r: &PathBuf) { unimplemented!() }
     // further Entry accessors of the snapshot entry: left unspecified (the copy re-reads the live entry for everything but the path)
-    #[verifier::external_body] pub fn mode(&self) -> (r: u32) { unimplemented!() }
-    #[verifier::external_body] pub fn is_dir(&self) -> (r: bool) { unimplemented!() }
-    #[verifier::external_body] pub fn is_file(&self) -> (r: bool) { unimplemented!() }
+    pub uninterp spec fn xmode(&self) -> u32;
+    pub uninterp spec fn xdir(&self) -> bool;
+    pub uninterp spec fn xfile(&self) -> bool;
+    #[verifier::external_body] pub fn mode(&self) -> (r: u32) ensures r == self.xmode() { unimplemented!() }
+    #[verifier::external_body] pub fn is_dir(&self) -> (r: bool) ensures r == self.xdir() { unimplemented!() }
+    #[verifier::external_body] pub fn is_file(&self) -> (r: bool) ensures r == self.xfile() { unimplemented!() }
 }
-pub uninterp spec fn traversal(snap: St, root: PathV, follow: bool) -> Seq<ItemV>;
+// the options of an Entries traversal that the callers under contract set
+pub struct TravCfg { pub follow: bool, pub max_depth: usize, pub contents_first: bool, pub dirs_first: bool, pub pre_op: bool }
+pub open spec fn default_cfg(follow: bool) -> TravCfg { TravCfg { follow: follow, max_depth: usize::MAX, contents_first: false, dirs_first: false, pre_op: false } }
+pub uninterp spec fn traversal_cfg(snap: St, root: PathV, cfg: TravCfg) -> Seq<ItemV>;
+pub open spec fn traversal(snap: St, root: PathV, follow: bool) -> Seq<ItemV> { traversal_cfg(snap, root, default_cfg(follow)) }
 pub open spec fn no_links(s: St) -> bool { forall|p: PathV| s.entries.contains_key(p) ==> !(#[trigger] s.entries[p]).link }
 // ASSUMED[traversal]: every yielded entry carries an absolute clean path at or below the traversal root, and is reported as a
 // link only if the snapshot contains a link (Entries / MemfsEntryIter, src/sys/fs/entries.rs + memfs/entry_iter.rs, unverified)
@@ -1330,19 +1337,45 @@ pub proof fn ax_traversal(snap: St, root: PathV, follow: bool)
                 it.path_ok && in_sub(root, it.path) && (it.link ==> !no_links(snap)) }
 { }
 pub open spec fn in_sub(a: PathV, p: PathV) -> bool { a.len() <= p.len() && p.take(a.len() as int) == a }
+// ASSUMED[traversal], any configuration: yielded paths are absolute and clean
+#[verifier::external_body]
+pub proof fn ax_traversal_cfg(snap: St, root: PathV, cfg: TravCfg)
+    ensures forall|i: int| 0 <= i < traversal_cfg(snap, root, cfg).len() ==> (#[trigger] traversal_cfg(snap, root, cfg)[i]).path_ok
+{ }
 #[verifier::external_body] pub struct EntriesIt { x: u8 }
 impl EntriesIt {
     pub uninterp spec fn snap(&self) -> St;
     pub uninterp spec fn root(&self) -> PathV;
-    pub uninterp spec fn flw(&self) -> bool;
+    pub uninterp spec fn cfg(&self) -> TravCfg;
+    pub open spec fn flw(&self) -> bool { self.cfg().follow }
     pub uninterp spec fn idx(&self) -> nat;
-    pub open spec fn items(&self) -> Seq<ItemV> { traversal(self.snap(), self.root(), self.flw()) }
+    pub open spec fn items(&self) -> Seq<ItemV> { traversal_cfg(self.snap(), self.root(), self.cfg()) }
     #[verifier::external_body]
-    pub fn follow(self, yes: bool) -> (r: EntriesIt) ensures r.snap() == self.snap(), r.root() == self.root(), r.flw() == yes, r.idx() == self.idx() { unimplemented!() }
+    pub fn follow(self, yes: bool) -> (r: EntriesIt) ensures r.snap() == self.snap(), r.root() == self.root(), r.cfg() == (TravCfg { follow: yes, ..self.cfg() }), r.idx() == self.idx() { unimplemented!() }
+    #[verifier::external_body]
+    pub fn max_depth(self, n: usize) -> (r: EntriesIt) ensures r.snap() == self.snap(), r.root() == self.root(), r.cfg() == (TravCfg { max_depth: n, ..self.cfg() }), r.idx() == self.idx() { unimplemented!() }
+    #[verifier::external_body]
+    pub fn contents_first(self) -> (r: EntriesIt) ensures r.snap() == self.snap(), r.root() == self.root(), r.cfg() == (TravCfg { contents_first: true, ..self.cfg() }), r.idx() == self.idx() { unimplemented!() }
+    #[verifier::external_body]
+    pub fn dirs_first(self) -> (r: EntriesIt) ensures r.snap() == self.snap(), r.root() == self.root(), r.cfg() == (TravCfg { dirs_first: true, ..self.cfg() }), r.idx() == self.idx() { unimplemented!() }
+    // R13: `.pre_op(move |x| { .. })` -- the boxed closure is verified as its own item (chmod_pre_op); here it only marks the configuration
+    #[verifier::external_body]
+    pub fn pre_op_set(self) -> (r: EntriesIt) ensures r.snap() == self.snap(), r.root() == self.root(), r.cfg() == (TravCfg { pre_op: true, ..self.cfg() }), r.idx() == self.idx() { unimplemented!() }
+    // next() of a traversal with a pre_op: the callback may run (any number of times) before an entry is yielded.
+    // ASSUMED[traversal]: it runs only the callback, whose contract (item chmod_pre_op) keeps wf and the cwd
+    #[verifier::external_body]
+    pub fn next_g(&mut self, guard: &mut MemfsGuard) -> (r: Option<RvResult<VfsEntry>>)
+        requires wf(old(guard).st())
+        ensures final(self).snap() == old(self).snap(), final(self).root() == old(self).root(), final(self).cfg() == old(self).cfg(),
+                wf(final(guard).st()), final(guard).st().cwd == old(guard).st().cwd,
+                r is None ==> old(self).idx() == old(self).items().len() && final(self).idx() == old(self).idx(),
+                r is Some ==> old(self).idx() < old(self).items().len() && final(self).idx() == old(self).idx() + 1,
+                (r is Some && r->Some_0 is Ok) ==> r->Some_0->Ok_0.iv() == old(self).items()[old(self).idx() as int],
+    { unimplemented!() }
     // ASSUMED[traversal]: the iterator yields traversal(..) front to back, or an error, and ends only after the last element
     #[verifier::external_body]
     pub fn next(&mut self) -> (r: Option<RvResult<VfsEntry>>)
-        ensures final(self).snap() == old(self).snap(), final(self).root() == old(self).root(), final(self).flw() == old(self).flw(),
+        ensures final(self).snap() == old(self).snap(), final(self).root() == old(self).root(), final(self).cfg() == old(self).cfg(),
                 r is None ==> old(self).idx() == old(self).items().len() && final(self).idx() == old(self).idx(),
                 r is Some ==> old(self).idx() < old(self).items().len() && final(self).idx() == old(self).idx() + 1,
                 (r is Some && r->Some_0 is Ok) ==> r->Some_0->Ok_0.iv() == old(self).items()[old(self).idx() as int],
@@ -1353,7 +1386,7 @@ impl EntriesIt {
 pub fn _entries(guard: &MemfsGuard, path: &PathBuf) -> (r: RvResult<EntriesIt>)
     requires guard.st().cwd_ok
     ensures r is Ok ==> spec_abs(guard.st().cwd, path.comps()) is Some && r->Ok_0.snap() == guard.st()
-                        && r->Ok_0.root() == spec_abs(guard.st().cwd, path.comps())->Some_0 && !r->Ok_0.flw() && r->Ok_0.idx() == 0
+                        && r->Ok_0.root() == spec_abs(guard.st().cwd, path.comps())->Some_0 && r->Ok_0.cfg() == default_cfg(false) && r->Ok_0.idx() == 0
 { unimplemented!() }
 impl MemfsEntry {
     // ASSUMED[entry-follow-contract]: MemfsEntry::follow (proved in unit entry_follow): nothing is swapped unless asked to follow a link
@@ -1597,7 +1630,7 @@ pub proof fn lemma_copy_ok_prefix(s: St, c: CopyV, items: Seq<ItemV>, k: nat, n:
             invariant
                 wf(guard.st()), no_links(guard.st()), no_links(s0), abs_stable(s0.cwd), guard.st().cwd == s0.cwd,
                 s0 == old(guard).st(),
-                __it1.snap() == s0, __it1.root() == a, __it1.flw() == cp.follow, __it1.idx() <= __it1.items().len(),
+                __it1.snap() == s0, __it1.root() == a, __it1.cfg() == default_cfg(cp.follow), __it1.idx() <= __it1.items().len(),
                 src_root.iv() == (ItemV { path: a, path_ok: true, link: false }),
                 dst_root.abs_clean(), dst_root@ == b,
                 c == (CopyV { a: a, b: b, into: copy_into, dmode: dir_mode, fmode: file_mode }),
@@ -1611,7 +1644,8 @@ pub proof fn lemma_copy_ok_prefix(s: St, c: CopyV, items: Seq<ItemV>, k: nat, n:
             let ghost st1 = guard.st();
             proof {
                 ax_traversal(s0, a, cp.follow);
-                assert(src.iv() == __it1.items()[k0 as int]);
+                assert(__it1.items() == traversal(s0, a, cp.follow));
+                assert(src.iv() == traversal(s0, a, cp.follow)[k0 as int]);
                 assert(a.take(a.len() as int) =~= a);
                 if a.len() > 0 { assert(p.take(a.len() - 1) =~= p.take(a.len() as int).take(a.len() - 1)); assert(a.take(a.len() - 1) =~= a.drop_last()); }
             }
@@ -1692,4 +1726,201 @@ pub fn _copy(guard: &mut MemfsGuard, cp: CopyOpts) -> (r: RvResult<()>)
                     && copy_ok(s0, c, items, items.len())
                 })
         }),
+//@ body
+
+// =====================================================================================================================
+// _chown / _chmod (C11): per-entry application over an (assumed) traversal
+//@ struct file=src/sys/fs/chown.rs name=ChownOpts
+//@ endstruct
+//@ struct file=src/sys/fs/chmod.rs name=ChmodOpts
+//@ rw R1 * ⟦String⟧ => ⟦Str⟧
+//@ endstruct
+impl ChmodOpts {
+    #[verifier::external_body]
+    pub fn clone(&self) -> (r: ChmodOpts) ensures r == *self { unimplemented!() }
+}
+pub open spec fn owned(e: EntryV, uid: Option<u32>, gid: Option<u32>) -> EntryV {
+    EntryV { uid: match uid { Some(u) => u, None => e.uid }, gid: match gid { Some(g) => g, None => e.gid }, ..e }
+}
+pub open spec fn chown_step(s: St, p: PathV, uid: Option<u32>, gid: Option<u32>) -> St {
+    if s.entries.contains_key(p) { St { entries: s.entries.insert(p, owned(s.entries[p], uid, gid)), ..s } } else { s }
+}
+pub open spec fn chown_fold(s: St, items: Seq<ItemV>, k: nat, uid: Option<u32>, gid: Option<u32>) -> St decreases k {
+    if k == 0 { s } else { chown_step(chown_fold(s, items, (k - 1) as nat, uid, gid), items[k - 1].path, uid, gid) }
+}
+// changing ids keeps the tree well formed and touches nothing but the uid/gid of that one entry
+pub proof fn lemma_chown_step(s: St, p: PathV, uid: Option<u32>, gid: Option<u32>)
+    requires wf(s)
+    ensures wf(chown_step(s, p, uid, gid)), chown_step(s, p, uid, gid).files == s.files, chown_step(s, p, uid, gid).cwd == s.cwd,
+            forall|q: PathV| q != p ==> ent_of(chown_step(s, p, uid, gid), q) == ent_of(s, q),                         //@ clause chown.step_touches_only_the_yielded_entry [C11]
+            s.entries.contains_key(p) ==> chown_step(s, p, uid, gid).entries[p] == owned(s.entries[p], uid, gid),      //@ clause chown.step_sets_only_the_given_ids [C11]
+{
+    let s2 = chown_step(s, p, uid, gid);
+    if s.entries.contains_key(p) {
+        assert forall|q: PathV| s2.entries.contains_key(q) implies #[trigger] entry_ok(s2, q) by {
+            assert(entry_ok(s, q));
+            if q.len() > 0 { assert(entry_ok(s, q.drop_last()) || true); }
+        }
+        assert forall|q: PathV, n: Name| #[trigger] kids_ok(s2, q, n) by { assert(kids_ok(s, q, n)); }
+        assert forall|q: PathV| #[trigger] file_ok(s2, q) by { assert(file_ok(s, q)); }
+        assert(entry_ok(s, root()));
+    }
+}
+//@ obligation lemma_chown_step props=C11,C03
+// composition: an entry whose path the traversal never yields keeps everything, ids included
+pub proof fn theorem_chown_frame(s: St, items: Seq<ItemV>, k: nat, uid: Option<u32>, gid: Option<u32>, q: PathV)
+    requires wf(s), k <= items.len(), forall|j: int| 0 <= j < k ==> (#[trigger] items[j]).path != q
+    ensures ent_of(chown_fold(s, items, k, uid, gid), q) == ent_of(s, q), wf(chown_fold(s, items, k, uid, gid)),
+            chown_fold(s, items, k, uid, gid).files == s.files                                                         //@ clause chown.untargeted_entries_and_all_content_unchanged [C11]
+    decreases k
+{
+    if k > 0 {
+        theorem_chown_frame(s, items, (k - 1) as nat, uid, gid, q);
+        lemma_chown_step(chown_fold(s, items, (k - 1) as nat, uid, gid), items[k - 1].path, uid, gid);
+    }
+}
+//@ obligation theorem_chown_frame props=C11
+
+//@ item _chown file=src/sys/fs/memfs/vfs.rs block="impl Memfs" fn=_chown props=C11,C03,C12
+//@ sig fn _chown(&self, opts: ChownOpts) -> RvResult<()>
+//@ rw R11 1 ⟦self.entries(&opts.path)?⟧ => ⟦_entries(guard, &opts.path)?⟧
+//@ rw R3 1 for
+//@ ins start
+    let ghost s0 = guard.st();
+//@ endins
+//@ loop 1
+            invariant
+                wf(guard.st()), s0 == old(guard).st(), wf(s0),
+                __it1.snap() == s0, __it1.idx() <= __it1.items().len(),
+                spec_abs(s0.cwd, opts.path.comps()) is Some,
+                __it1.root() == spec_abs(s0.cwd, opts.path.comps())->Some_0,
+                __it1.cfg() == (TravCfg { follow: opts.follow, max_depth: if opts.recursive { usize::MAX } else { 0 }, ..default_cfg(false) }),
+                guard.st() == chown_fold(s0, __it1.items(), __it1.idx(), opts.uid, opts.gid),
+            ensures __it1.idx() == __it1.items().len(),
+            decreases __it1.items().len() - __it1.idx()
+//@ endloop
+//@ ins after ⟦let src = entry?;⟧
+            let ghost st1 = guard.st();
+            let ghost k0 = (__it1.idx() - 1) as nat;
+            proof {
+                ax_traversal_cfg(s0, __it1.root(), __it1.cfg());
+                assert(src.iv() == __it1.items()[k0 as int]);
+                assert(chown_fold(s0, __it1.items(), (k0 + 1) as nat, opts.uid, opts.gid) == chown_step(st1, src.iv().path, opts.uid, opts.gid));
+                lemma_chown_step(st1, src.iv().path, opts.uid, opts.gid);
+            }
+//@ endins
+pub fn _chown(guard: &mut MemfsGuard, opts: ChownOpts) -> (r: RvResult<()>)
+    requires wf(old(guard).st()),
+    ensures
+        wf(final(guard).st()),                                                                                   //@ clause chown.wf_preserved [C03]
+        r is Ok ==> ({
+            let s0 = old(guard).st();
+            let a = spec_abs(s0.cwd, opts.path.comps());
+            &&& a is Some
+            &&& ({
+                // recursive => unbounded depth, otherwise only the entry itself; follow as requested
+                let items = traversal_cfg(s0, a->Some_0, TravCfg { follow: opts.follow, max_depth: if opts.recursive { usize::MAX } else { 0 }, ..default_cfg(false) });
+                final(guard).st() == chown_fold(s0, items, items.len(), opts.uid, opts.gid)                       //@ clause chown.sets_ids_on_exactly_the_yielded_entries [C11]
+            })
+        }),
+//@ body
+
+// ---- chmod
+// ASSUMED[mode-contract]: sys::mode(entry, octal, sym) is a function of the entry's kind flags, its mode, the octal value and the expression
+// (proved equal to the documented grammar's interpreter in unit chmod_mode); revoking_mode as proved there
+pub uninterp spec fn spec_mode(link: bool, dir: bool, file: bool, mode: u32, octal: u32, sym: Seq<char>) -> Option<u32>;
+#[verifier::external_body]
+pub fn sys_mode(e: &VfsEntry, octal: u32, sym: &Str) -> (r: RvResult<u32>)
+    ensures r is Ok == spec_mode(e.iv().link, e.xdir(), e.xfile(), e.xmode(), octal, sym@) is Some,
+            r is Ok ==> r->Ok_0 == spec_mode(e.iv().link, e.xdir(), e.xfile(), e.xmode(), octal, sym@)->Some_0
+{ unimplemented!() }
+pub open spec fn revoking(old: u32, new: u32) -> bool { old & 0o0500 > new & 0o0500 || old & 0o0050 > new & 0o0050 || old & 0o0005 > new & 0o0005 }
+#[verifier::external_body]
+pub fn revoking_mode(old: u32, new: u32) -> (r: bool) ensures r == revoking(old, new) { unimplemented!() }
+pub open spec fn with_mode(s: St, p: PathV, m: u32) -> St {
+    if s.entries.contains_key(p) { let e = s.entries[p]; St { entries: s.entries.insert(p, EntryV { mode: kind_mode(e.link, e.file, e.dir, Some(m)), ..e }), ..s } } else { s }
+}
+pub proof fn lemma_with_mode_wf(s: St, p: PathV, m: u32)
+    requires wf(s)
+    ensures wf(with_mode(s, p, m)), with_mode(s, p, m).files == s.files, with_mode(s, p, m).cwd == s.cwd,
+            forall|q: PathV| q != p ==> ent_of(with_mode(s, p, m), q) == ent_of(s, q),       //@ clause chmod.step_touches_only_the_yielded_entry [C11]
+{
+    let s2 = with_mode(s, p, m);
+    if s.entries.contains_key(p) {
+        assert forall|q: PathV| s2.entries.contains_key(q) implies #[trigger] entry_ok(s2, q) by { assert(entry_ok(s, q)); }
+        assert forall|q: PathV, n: Name| #[trigger] kids_ok(s2, q, n) by { assert(kids_ok(s, q, n)); }
+        assert forall|q: PathV| #[trigger] file_ok(s2, q) by { assert(file_ok(s, q)); }
+        assert(entry_ok(s, root()));
+    }
+}
+//@ obligation lemma_with_mode_wf props=C11,C03
+// the on-the-way-out step of chmod for one yielded entry: directories get the mode computed from the `dirs` octal / the expression,
+// files from the `files` octal / the expression, anything else nothing; a symlink is only touched when following; mode 0 = nothing to do
+pub open spec fn chmod_step(s: St, link: bool, dir: bool, file: bool, mode: u32, p: PathV, o: ChmodOpts) -> Option<St> {
+    let m2 = if dir { spec_mode(link, dir, file, mode, o.dirs, o.sym@) } else if file { spec_mode(link, dir, file, mode, o.files, o.sym@) } else { Some(0u32) };
+    match m2 {
+        None => None,
+        Some(v) => Some(if (!link || o.follow) && v != mode && v != 0 { with_mode(s, p, v) } else { s }),
+    }
+}
+// the on-the-way-in step (pre_op): only directories, only when the new mode takes no read/execute bit away (granting first)
+pub open spec fn chmod_pre_step(s: St, link: bool, dir: bool, file: bool, mode: u32, p: PathV, o: ChmodOpts) -> Option<St> {
+    match spec_mode(link, dir, file, mode, o.dirs, o.sym@) {
+        None => None,
+        Some(v) => Some(if (!link || o.follow) && dir && !revoking(mode, v) && mode != v { with_mode(s, p, v) } else { s }),
+    }
+}
+
+//@ item chmod_pre_op file=src/sys/fs/memfs/vfs.rs block="impl Memfs" fn=_chmod closure=1 props=C11,C03,C12
+//@ sig closure |x| in fn _chmod(&self, opts: ChmodOpts) -> RvResult<()>
+//@ rw R8 + re⟦\bsys::mode\(⟧ => ⟦sys_mode(⟧
+//@ rw R8 + re⟦\bsys::revoking_mode\(⟧ => ⟦revoking_mode(⟧
+//@ rw R11 1 ⟦let mut guard = vfs.write_guard();⟧ => ⟦⟧
+//@ ins start
+    let ghost s0 = guard.st();
+    proof { if x.iv().path_ok { } }
+//@ endins
+//@ ins before ⟦Ok(())⟧
+    proof { lemma_with_mode_wf(s0, x.iv().path, m1); }
+//@ endins
+// R13: the boxed closure `move |x| { .. }` handed to Entries::pre_op becomes a function; its captures `m` (a clone of the options)
+// and `vfs` (a clone of the handle, used only to take the write guard) become the parameters `m` and `guard`
+pub fn chmod_pre_op(x: &VfsEntry, m: &ChmodOpts, guard: &mut MemfsGuard) -> (r: RvResult<()>)
+    requires wf(old(guard).st()), x.iv().path_ok,
+    ensures
+        wf(final(guard).st()), final(guard).st().cwd == old(guard).st().cwd,                                      //@ clause chmod.pre_op_keeps_wf [C03]
+        r is Err ==> final(guard).st() == old(guard).st(),
+        ({
+            let st = chmod_pre_step(old(guard).st(), x.iv().link, x.xdir(), x.xfile(), x.xmode(), x.iv().path, *m);
+            &&& (r is Ok) == (st is Some)
+            &&& r is Ok ==> final(guard).st() == st->Some_0                                                       //@ clause chmod.pre_op_grants_directory_mode_only_when_not_revoking [C11]
+        }),
+//@ body
+
+//@ item _chmod file=src/sys/fs/memfs/vfs.rs block="impl Memfs" fn=_chmod props=C11,C03,C12
+//@ sig fn _chmod(&self, opts: ChmodOpts) -> RvResult<()>
+//@ rw R11 1 ⟦self.entries(&opts.path)?⟧ => ⟦_entries(guard, &opts.path)?⟧
+//@ rw R11 1 ⟦let vfs = self.clone();⟧ => ⟦⟧
+//@ rw R13 1 re⟦\.pre_op\(move \|x\| \{.*?\}\);⟧ => ⟦.pre_op_set();⟧
+//@ rw R8 + re⟦\bsys::mode\(⟧ => ⟦sys_mode(⟧
+//@ rw R3 1 for
+//@ rw R13 1 ⟦__it1.next()⟧ => ⟦__it1.next_g(guard)⟧
+//@ loop 1
+            invariant wf(guard.st()), guard.st().cwd_ok,
+            decreases __it1.items().len() - __it1.idx()
+//@ endloop
+//@ ins after ⟦let src = entry?;⟧
+            let ghost st1 = guard.st();
+            proof { ax_traversal_cfg(__it1.snap(), __it1.root(), __it1.cfg()); assert(src.iv().path_ok); }
+//@ endins
+//@ ins loopend 1
+            proof {
+                let st = chmod_step(st1, src.iv().link, src.xdir(), src.xfile(), src.xmode(), src.iv().path, opts);
+                assert(st is Some && guard.st() == st->Some_0);      //@ clause chmod.applies_the_kind_specific_mode_to_each_yielded_entry [C11]
+                if m2 != 0 { lemma_with_mode_wf(st1, src.iv().path, m2); }
+            }
+//@ endins
+pub fn _chmod(guard: &mut MemfsGuard, opts: ChmodOpts) -> (r: RvResult<()>)
+    requires wf(old(guard).st()),
+    ensures wf(final(guard).st()),                                                                                //@ clause chmod.wf_preserved [C03]
 //@ body
